@@ -269,7 +269,7 @@ fn cli_layer(ctx: &Ctx) {
 fn cli_password_edges(ctx: &Ctx) {
     let mut rng = Rng::fork(ctx.seed, "C15-cli-edges");
     let wd = WorkDir::new("c15e");
-    let pws: Vec<String> = vec!["alice".into(), "alice\n".into(), "alice\r\n".into(), "alice ".into(), " alice".into(), "\n".into(), "tab\t".into(), "wide\u{3000}".into()];
+    let pws: Vec<String> = vec!["".into(), "alice".into(), "alice\n".into(), "alice\r\n".into(), "alice ".into(), " alice".into(), "\n".into(), "tab\t".into(), "wide\u{3000}".into()];
     for (i, w) in pws.iter().enumerate() {
         let key = rng.arr32();
         let locked = refspec::lock_sk(&key, w.as_bytes(), &rng.arr32());
@@ -295,6 +295,37 @@ fn cli_password_edges(ctx: &Ctx) {
                 ctx.distinct(&format!("edge|near|{}|{}", i, hex(n.as_bytes())));
             } else {
                 ctx.violation("C15:cli:different-password-unlocks", json!({"locked_under_hex": hex(w.as_bytes()), "offered_hex": hex(n.as_bytes()), "exit": o.exit.describe(), "stdout": o.stdout_s()}));
+            }
+        }
+        // the same key inside a keyring: encrypt -f / decrypt -t with another password must fail and write nothing
+        {
+            let me = crate::cli::Ident { name: "me".into(), sk: key, pk: refspec::pubkey_of(&key), password: w.clone(), locked: locked.clone(), encoded_pk: refspec::encode_pk(&refspec::pubkey_of(&key)) };
+            let peer = crate::cli::Ident::new("peer", "peer-pw", &mut rng);
+            wd.write("kr.txt", crate::cli::keyring_text(&[(&me, true), (&peer, true)]).as_bytes());
+            wd.write("m.txt", b"message");
+            let tome = refspec::encode_key_file(&peer.sk, &peer.pk, &me.pk, &rng.arr32(), &rng.arr32(), b"for me", &[6]).unwrap();
+            wd.write("tome.ktl", &tome);
+            for wrong in ["wrong", "", " ", "x"] {
+                if wrong == w || refspec::hmac_norm(wrong.as_bytes()) == refspec::hmac_norm(w.as_bytes()) {
+                    continue;
+                }
+                let _ = std::fs::remove_file(wd.file("o.ktl"));
+                let _ = std::fs::remove_file(wd.file("o.txt"));
+                let e = Cmd::new(&wd.path, &["encrypt", "m.txt", "-t", "peer", "-f", "me", "-o", "o.ktl", "-k", "kr.txt", "--env-pass"]).pass(wrong).run();
+                let d = Cmd::new(&wd.path, &["decrypt", "tome.ktl", "-t", "me", "-o", "o.txt", "-k", "kr.txt", "--env-pass"]).pass(wrong).run();
+                ctx.eval();
+                if e.exit == Exit::Code(1) && d.exit == Exit::Code(1) && !wd.file("o.ktl").exists() && !wd.file("o.txt").exists() {
+                    ctx.seen("cli: keyring key does not unlock for encrypt/decrypt under another password");
+                    ctx.distinct(&format!("edge|keyring|{}|{}", i, wrong));
+                } else {
+                    ctx.violation("C15:cli:keyring-key-unlocks-under-a-different-password", json!({"locked_under_hex": hex(w.as_bytes()), "offered": wrong, "encrypt_exit": e.exit.describe(), "decrypt_exit": d.exit.describe(), "encrypt_stderr": e.stderr_s(), "decrypt_stderr": d.stderr_s()}));
+                }
+            }
+            // and with the right one it works
+            let e = Cmd::new(&wd.path, &["encrypt", "m.txt", "-t", "peer", "-f", "me", "-k", "kr.txt", "--env-pass"]).pass(w).run();
+            ctx.eval();
+            if !(e.exit == Exit::Code(0) && matches!(refspec::decode_key_file(&e.stdout, &peer.sk, &peer.pk), Ok(d) if d.sender == me.pk)) {
+                ctx.violation("C15:cli:keyring-key-does-not-unlock-under-its-own-password", json!({"password_hex": hex(w.as_bytes()), "exit": e.exit.describe(), "stderr": e.stderr_s()}));
             }
         }
         // change-pass TO this password, then unlock with exactly it (reference and tool)
@@ -327,6 +358,7 @@ pub fn run(ctx: &Ctx) {
     cli_layer(ctx);
     cli_password_edges(ctx);
     ctx.require("cli: near-miss password does not unlock", 20);
+    ctx.require("cli: keyring key does not unlock for encrypt/decrypt under another password", 10);
     ctx.require("cli: change-pass to a whitespace-edged password is lossless", 6);
     ctx.require("lock == spec", 50);
     ctx.require("single-bit change in", 672);
